@@ -331,9 +331,15 @@ def value_post(c, name, text, vt):
     repl = E.uf("str_replace_all", z3.StringSort(), z3.StringSort(), z3.StringSort(), z3.StringSort())
     Ln = z3.Length(text)
     fld = U.field
-    if name in ("INTEGER", "DECIMAL", "BOOLEAN", "GUID", "DATE", "TIME", "DATETIME"):
+    if name in ("INTEGER", "DECIMAL", "BOOLEAN", "GUID", "DATE", "TIME"):
         k = G.TOKEN_KIND[name]
         return [("post.value", PV.s(fld(k, "val", vt)) == text)]
+    if name == "DATETIME":
+        # the value of a date-time does not depend on the letter case of its T / Z designators (ABNF: case-insensitive
+        # literals; the digits, signs and separators have no case): the node carries the source spelling or its
+        # upper-case normal form (as DURATION does)
+        v = PV.s(fld("DateTime", "val", vt))
+        return [("post.value", z3.Or(v == text, v == upper(text)))]
     if name == "NULL":
         return [("post.value", vt == U.node("Null"))]
     if name == "STRING":
